@@ -290,7 +290,7 @@ func (g gStyle) css(r *rng.R) string {
 // validPerStandard: does CSS Counter Styles 3 accept the rule (§3.1: enough symbols for the system; an
 // extends rule must not list symbols; name not decimal / disc / none)?
 func (g gStyle) validPerStandard() bool {
-	if g.name == "decimal" || g.name == "disc" || g.name == "none" {
+	if l := strings.ToLower(g.name); l == "decimal" || l == "disc" || l == "none" { // ASCII case-insensitive
 		return false
 	}
 	switch g.system {
